@@ -427,6 +427,34 @@ def m_hasattr(interp, obj, name):
     return hasattr(obj, name)
 
 
+@model(type, always=True)
+def m_type(interp, *args, **kwargs):
+    """type(x): the engine's value models stand for CPython objects; report the class they stand for, so that code which
+    dispatches on the exact type (`type(stream) is BytesIO`) takes the branch it would take natively."""
+    if len(args) == 1 and not kwargs:
+        import io as _io
+
+        from pyvc.stream import SymStream
+
+        v = args[0]
+        if type(v) is SymStream:
+            return _io.BytesIO
+        if isinstance(v, SBytes):
+            return bytearray if v.mutable else bytes
+        if isinstance(v, SStr):
+            return str
+        if isinstance(v, SFloat):
+            return float
+        if isinstance(v, (SEnum, SPtr, STyped)):
+            return v.cls
+        if is_symbool(v):
+            return bool
+        if is_symint(v):
+            return int
+        return type(v)
+    return type(*args, **kwargs)
+
+
 @model(type.__call__, always=True)
 def m_type_call(interp, cls, *args, **kwargs):
     return interp.type_call(cls, args, kwargs)
